@@ -396,7 +396,10 @@ def arity_rules(view, bs, n_term, n_desc):
         out.append(finding("C06.ARITY", view, "length is compared with %s, the arity is %s" % (fmt(lc["const"]), n_desc), lc["sw"]))
     seq = strip_refs(lc["seq"])
     if not (seq[0] == "field" and seq[1] == ("param", 1) and seq[2] == "Sequence"):
-        out.append(finding("C06.ARITY", view, "the length measured is not that of the input sequence", lc["len_bb"], fmt(seq)))
+        # (the sequence may have been taken out of the input by a helper: `let seq = expect_sequence(value, location)?;`)
+        al = [strip_refs(canon(view, a)) for a in view.alts(seq)]
+        if not (al and all(a[0] == "field" and a[1] == ("param", 1) and a[2] == "Sequence" for a in al)):
+            out.append(finding("C06.ARITY", view, "the length measured is not that of the input sequence", lc["len_bb"], fmt(seq)))
     bad_t = lc["true"] if lc["op"] == "Ne" else lc["false"]
     good_t = lc["false"] if lc["op"] == "Ne" else lc["true"]
     # the unequal edge reports BadSequenceLen{actual: seq, expected: N} and returns
@@ -515,7 +518,15 @@ def c_tuple(view, bs):
             if not (p[0] == "field" and p[2] == "Ok" and isinstance(p[1], tuple) and p[1][0] == "call" and p[1][1] == ch["bb"]):
                 okk = False
         if not okk:
-            out.append(finding("C06.ARITY", view, "field #%d of the result is not the value deserialised from element #%d" % (k, k), oks[0][1], fmt(fk)))
+            f_ = finding("C06.ARITY", view, "field #%d of the result is not the value deserialised from element #%d" % (k, k), oks[0][1], fmt(fk))
+            # a verdict when what reaches the field is a recognised value from elsewhere (another element's payload, a constant);
+            # when it goes through calls the rule does not read (`.map(Some).or_else(|e| ..)?`), it is not one
+            other_children = set(c2["bb"] for c2 in bs.children if c2["bb"] != ch["bb"])
+            recognised_wrong = any((lambda q: (q[0] == "field" and q[2] == "Ok" and isinstance(q[1], tuple) and q[1][0] == "call" and q[1][1] in other_children) or q[0] == "const")(canon(view, p_)) for p_ in srcs)
+            if not recognised_wrong:
+                f_.what += ": what reaches the field goes through calls this rule does not read: not recognised (undecided)"
+                f_.undecided = True
+            out.append(f_)
     return out, ob
 
 
